@@ -270,6 +270,72 @@ func runC02(c *Ctx) {
 			c.Floor("C02.R6", 4)
 		}
 	}
+	// the de-duplication keys are injective: a field is written unconditionally, or behind a nil test
+	// (absent ≠ any present value) — never behind a comparison of the field itself, which maps all the
+	// values on the other side to one key (limit 0 = "position only" and limit −1 = "everything")
+	for _, name := range []string{"(*Node).historySingleFlight", "(*Node).mapStreamKey", "(*Node).mapStateKey"} {
+		fn := w.Func("centrifuge", name)
+		if fn == nil {
+			continue
+		}
+		k := 0
+		for _, ci := range CallsIn(fn, false, w.calleeIs("Builder.WriteString")) {
+			arg := ci.Common().Args[1]
+			if _, isLit := constStrOf(arg); isLit {
+				continue
+			}
+			k++
+			fld := fieldLeafOf(arg, 0)
+			var bad string
+			for _, g := range Guards(ci) {
+				b, ok := g.Cond.(*ssa.BinOp)
+				if !ok || isNilConst(b.Y) || isNilConst(b.X) {
+					continue
+				}
+				if _, isStrLit := constStrOf(b.Y); isStrLit && b.Op == token.NEQ {
+					// `x != ""` for a string: the empty string written or not written is the same key suffix
+					continue
+				}
+				if fld != "" && (strings.HasSuffix(D(b.X), "."+fld) || strings.HasSuffix(D(b.Y), "."+fld)) {
+					bad = g.String()
+				}
+			}
+			c.Check("C02.R6", ci, "de-duplication key writes the field unconditionally (or behind a nil test only)", bad == "",
+				"guard "+bad+": all values of the field on the other side of the comparison share one key, so concurrent calls that differ only there get each other's result")
+		}
+		c.CheckAt("C02.R6", name+": key fields written", w.Pos(fn.Pos()), k >= 2, fmt.Sprint(k))
+	}
+}
+
+// fieldLeafOf: the last field name read on the way to v (through conversions and formatting calls).
+func fieldLeafOf(v ssa.Value, depth int) string {
+	if v == nil || depth > 6 {
+		return ""
+	}
+	switch x := v.(type) {
+	case *ssa.Call:
+		for _, a := range x.Call.Args {
+			if s := fieldLeafOf(a, depth+1); s != "" {
+				return s
+			}
+		}
+	case *ssa.Convert:
+		return fieldLeafOf(x.X, depth+1)
+	case *ssa.ChangeType:
+		return fieldLeafOf(x.X, depth+1)
+	case *ssa.UnOp:
+		if fa, ok := x.X.(*ssa.FieldAddr); ok {
+			if _, f, ok := FieldOf(fa); ok {
+				return f
+			}
+		}
+		return fieldLeafOf(x.X, depth+1)
+	case *ssa.Field:
+		if _, f, ok := FieldOf(x); ok {
+			return f
+		}
+	}
+	return ""
 }
 
 func runC03(c *Ctx) {
